@@ -110,6 +110,13 @@ def segment_spec(rng, SI, parent_bc=None, nmin=2):
         kinds = [par['sites'][i % Lp] for i in range(first, last + 1)]
         if int(np.prod([G.std_table(k)[0] for k in kinds])) > 300:
             continue
+        b = par['build']
+        if b['method'] == 'bflat':       # outer bonds with more than one Schmidt state (where the constructor fixes them)
+            cuts = [first % Lp, (last + 1) % Lp] if parent_bc == 'infinite' else [c for c in (first, last + 1) if 0 < c < Lp]
+            if any(b['chi'][c] < 2 for c in cuts) and rng.random() < 0.9:
+                continue
+        elif parent_bc == 'infinite':
+            continue
         return {'bc': 'segment', 'sites': kinds, 'parent': par, 'segment': [first, last]}
     raise RuntimeError('no segment state')
 
@@ -605,7 +612,12 @@ class Maker:
         return [{'op': 'get_grouped_mps', 'n': n, 'observe': bc == 'finite'}] + self.group_split(S, L, bc, {})
 
     def spatial_inversion(self, S, L, bc, force, real=False):
-        return [{'op': 'spatial_inversion'}]
+        BK = '<recorded boundaries of a segment>'
+        b = self.pick('spatial_inversion', BK, force, exclude=('recorded',) if bc != 'segment' else ())
+        pre = []
+        if b == 'recorded':         # a canonical_form on the segment records the change of its outer bases
+            pre = self.apply_local_op(S, L, bc, {'op': self.rng.choice(['Array:1', 'Array:2']), 'unitary': 'False'}, real)
+        return pre + [{'op': 'spatial_inversion'}]
 
     def enlarge_mps_unit_cell(self, S, L, bc, force, real=False):
         c = self.pick('enlarge_mps_unit_cell', 'factor', force)
@@ -845,6 +857,8 @@ def gen_goal_case(rng, nrng, SI, goal):
             swapcls = force.get('swap_op')
             uniform = (m == 'apply_product_op' and cls in ('single:name', 'single:Array', 'list:divisor')) or (m == 'compute_K' and cls == 'Lattice')
             charged = True if (m == 'gauge_total_charge' and rng.random() < 0.85) or cls == 'other-charge-gauge' else None
+            if m == 'enlarge_chi' and cls == 'LegCharge' and bc == 'finite':
+                charged = False          # (with charges an extra block may be refused as overcomplete)
             if m == 'compute_K' and (cls == 'Lattice' or rng.random() < 0.5):
                 charged = False
             nonfermi = swapcls == 'None'
@@ -860,7 +874,7 @@ def gen_goal_case(rng, nrng, SI, goal):
                     spec, D = infinite_spec(rng, SI, 2, 4, charged=charged, uniform=uniform or rng.random() < 0.6, maxcell=16)
                 else:
                     spec, D = infinite_spec(rng, SI, 4 if cls == 'list:divisor' else (3 if cls in ('inner',) else 2), 4, charged=charged, uniform=uniform)
-                real = (not spec['build'].get('cplx')) or spec['build']['method'] == 'product'
+                real = ((not spec['build'].get('cplx')) or spec['build']['method'] == 'product') and rng.random() < 0.5
             else:
                 spec = segment_spec(rng, SI, nmin=3 if cls in ('Array:3', 'inner', 'reversal') or m == 'extract_segment' else 2)
                 real = False
@@ -872,7 +886,7 @@ def gen_goal_case(rng, nrng, SI, goal):
             if bc == 'infinite':
                 if rng.random() < 0.7:
                     ops.append({'op': 'convert_form', 'forms': G.gen_forms(rng, len(kinds))})
-            elif bc == 'segment' and m == 'extract_segment':
+            elif bc == 'segment' and m in ('extract_segment', 'spatial_inversion'):
                 pass            # (the maker decides whether the segment has recorded boundaries)
             elif bc == 'segment' and m in ('add', 'group_sites', 'swap_sites', 'permute_sites') and rng.random() < 0.6:
                 # a segment whose outer bases were changed by a canonical_form (recorded in segment_boundaries)
@@ -903,6 +917,11 @@ def gen_goal_case(rng, nrng, SI, goal):
             last = call[-1]
             ends = (last['op'] == 'apply_local_term' and last.get('canonicalize', True) is False) or \
                 (m == 'extract_segment' and bc == 'infinite')
+            if m == 'enlarge_mps_unit_cell':
+                # the enlarged state as operand of an operation that updates tensors in place (canonical_form of ONE changed site)
+                S2 = G.Sites(kinds_now, SI)
+                ops += mk.apply_local_op(S2, len(kinds_now), bc, {'op': 'Array:1', 'unitary': 'False', 'renormalize': rng.choice(['default', 'False']),
+                                                                  'understood_infinite': 'True'}, real)
             if not ends:
                 now_bc = 'segment' if m == 'extract_segment' else bc
                 zero_S = m in ('enlarge_chi', 'subspace_expansion') or (m == 'add' and 'cutoff' in call[-1] and call[-1]['cutoff'] is None)
@@ -1075,6 +1094,22 @@ def json_subst(x, spec):
     if isinstance(x, str) and 'segment' in spec and x in ('first', 'last', 'first+1'):
         return {'first': spec['segment'][0], 'last': spec['segment'][1], 'first+1': spec['segment'][0] + 1}[x]
     return x
+
+
+def gen_topup_cases(rng, nrng, SI, missing, reps=3):
+    """further histories for value classes the first pass did not reach (its calls were refused / gave the zero vector)"""
+    out = []
+    for m, p, c in missing:
+        if m == 'extract_enlarged_segment':
+            out += [x for x in gen_enlarged_segment_cases(rng, nrng, SI, 1) if x[0]['goal'][2:] == [p, c] or p.startswith('<') or p in ('first', 'last', 'psi_left', 'psi_right')]
+            continue
+        for g in goals():
+            if g[0] == m and ((p == '<bc>' and g[1] == c) or (g[2] == p and g[3] == c)):
+                for _ in range(reps):
+                    x = gen_goal_case(rng, nrng, SI, g)
+                    if x is not None:
+                        out.append(x)
+    return out
 
 
 def gen_cases(rng, nrng, SI, reps=1):
